@@ -656,4 +656,249 @@ theorem enabled_of_inv (c : Cfg) (s : State) (h : Inv c s) (hr : c.repaired = tr
   | _ => apply hC; simp [stepC, hp, ho]
 
 
+
+/-! ## ranking function -/
+theorem sumTo_le_add (n : Nat) (f g : Nat → Nat) (d : Nat) (h : ∀ k, k < n → g k ≤ f k + d) :
+    sumTo n g ≤ sumTo n f + n * d := by
+  induction n with
+  | zero => simp [sumTo]
+  | succ n ih =>
+    have h1 := ih (fun k hk => h k (Nat.lt_succ_of_lt hk))
+    have h2 := h n (Nat.lt_succ_self n)
+    simp only [sumTo, Nat.succ_mul]
+    omega
+
+theorem sumTo_upd_bound (n : Nat) (f g : Nat → Nat) (w d e : Nat) (hw : w < n)
+    (h : ∀ k, k < n → k ≠ w → g k ≤ f k + d) (hwe : g w + e ≤ f w) :
+    sumTo n g + e ≤ sumTo n f + n * d := by
+  induction n with
+  | zero => omega
+  | succ n ih =>
+    simp only [sumTo, Nat.succ_mul]
+    rcases Nat.lt_or_ge w n with h1 | h1
+    · have := ih h1 (fun k hk hne => h k (Nat.lt_succ_of_lt hk) hne)
+      have h2 := h n (Nat.lt_succ_self n) (by omega)
+      omega
+    · have hwn : w = n := by omega
+      subst hwn
+      have := sumTo_le_add w f g d (fun k hk => h k (Nat.lt_succ_of_lt hk) (by omega))
+      omega
+
+theorem lw_wake (n : Nat) (p : WPc) (st : WSt) : lw n (if p = .waiting then .woken else p) st ≤ lw n p st + 2 := by
+  cases p <;> cases st <;> simp [lw] <;> omega
+theorem lw_run (n : Nat) (p : WPc) (st : WSt) : lw n p .run ≤ lw n p st + G n := by
+  cases p <;> cases st <;> simp [lw, G, BW] <;> omega
+theorem lw_term (n : Nat) (p : WPc) (st : WSt) : lw n p .term ≤ lw n p st + 4 := by
+  cases p <;> cases st <;> simp [lw, G, BW] <;> omega
+theorem lw_lock1 (n : Nat) (st : WSt) : lw n .lock1 st + 1 ≤ G n := by
+  cases st <;> simp [lw, G, BW] <;> omega
+theorem lw_idle (n : Nat) (st : WSt) : lw n .idle st = 0 := by
+  cases st <;> rfl
+
+theorem rank_lt_of_worker (c : Cfg) (s s' : State) (w x d e : Nat) (hw : w < c.n)
+    (hC : rankC c s'.cpc s'.blk ≤ rankC c s.cpc s.blk + x)
+    (hother : ∀ k, k < c.n → k ≠ w → lw c.n (s'.wpc k) (s'.st k) ≤ lw c.n (s.wpc k) (s.st k) + d)
+    (hself : lw c.n (s'.wpc w) (s'.st w) + e ≤ lw c.n (s.wpc w) (s.st w))
+    (hnet : x + c.n * d < e) : rank c s' < rank c s := by
+  have := sumTo_upd_bound c.n (fun k => lw c.n (s.wpc k) (s.st k)) (fun k => lw c.n (s'.wpc k) (s'.st k)) w d e hw
+    hother hself
+  simp only [rank]
+  omega
+
+theorem rankC_wakeC (c : Cfg) (p : CPc) (blk : Nat) : rankC c (wakeC p) blk ≤ rankC c p blk + 2 := by
+  cases p <;> simp [wakeC, rankC] <;> omega
+
+/-- worker steps decrease the rank -/
+theorem rank_stepW (c : Cfg) (s s' : State) (w : Nat) (hw : w < c.n) (hs : stepW s w = some s') :
+    rank c s' < rank c s := by
+  unfold stepW at hs
+  split at hs <;> (try split at hs) <;> simp at hs <;> subst hs
+  case h_7 =>
+    rename_i hp
+    apply rank_lt_of_worker c _ _ w 2 2 (BW c.n + 1) hw
+    · exact rankC_wakeC c _ _
+    · intro k hk hne
+      simp only [upd, hne, if_false]
+      exact lw_wake c.n _ _
+    · simp only [upd, if_true, hp]
+      cases s.st w <;> simp [lw] <;> omega
+    · simp [BW]; omega
+  all_goals
+    rename_i hp
+    apply rank_lt_of_worker c _ _ w 0 0 1 hw
+    · simp
+    · intro k hk hne
+      simp [upd, hne]
+    · simp_all [upd, lw]
+      all_goals (try omega)
+      all_goals (try (cases s.st w <;> simp [lw] <;> omega))
+    · omega
+
+
+theorem sumTo_upd_incr (n : Nat) (f g : Nat → Nat) (w e : Nat)
+    (h : ∀ k, k < n → k ≠ w → g k ≤ f k) (hwe : g w ≤ f w + e) :
+    sumTo n g ≤ sumTo n f + e := by
+  induction n with
+  | zero => simp [sumTo]
+  | succ n ih =>
+    simp only [sumTo]
+    have h0 := ih (fun k hk hne => h k (Nat.lt_succ_of_lt hk) hne)
+    by_cases hwn : n = w
+    · subst hwn
+      have := sumTo_le_add n f g 0 (fun k hk => h k (Nat.lt_succ_of_lt hk) (by omega))
+      omega
+    · have := h n (Nat.lt_succ_self n) hwn
+      omega
+
+theorem rank_lt_of_coord (c : Cfg) (s s' : State) (d : Nat)
+    (hsum : ∀ k, k < c.n → lw c.n (s'.wpc k) (s'.st k) ≤ lw c.n (s.wpc k) (s.st k) + d)
+    (hC : rankC c s'.cpc s'.blk + c.n * d < rankC c s.cpc s.blk) : rank c s' < rank c s := by
+  have := sumTo_le_add c.n (fun k => lw c.n (s.wpc k) (s.st k)) (fun k => lw c.n (s'.wpc k) (s'.st k)) d hsum
+  simp only [rank]
+  omega
+
+theorem PB_mul_succ (n q : Nat) : PB n * (q + 1) = PB n * q + PB n := Nat.mul_succ _ _
+
+theorem lw_wakeAll (n : Nat) (f : Nat → WPc) (k : Nat) (st : WSt) : lw n (wakeAll f k) st ≤ lw n (f k) st + 2 := by
+  simp only [wakeAll]; exact lw_wake n _ _
+
+/-- coordinator steps decrease the rank -/
+theorem rank_stepC (c : Cfg) (s s' : State) (h : Inv c s) (hs : stepC c s = some s') :
+    rank c s' < rank c s := by
+  have hcr := h.accCreate
+  have hG : 0 < G c.n := by simp [G]; omega
+  cases hp : s.cpc with
+  | create k =>
+    simp only [stepC, hp] at hs; injection hs with hs; subst hs
+    have hblk : s.blk = 0 := (hcr (by simp [hp, isCreate])).2.2
+    have hsum := sumTo_upd_incr c.n (fun w => lw c.n (s.wpc w) (s.st w))
+      (fun w => lw c.n (upd s.wpc k .lock1 w) (s.st w)) k (G c.n - 1)
+      (fun w _ hne => by simp [upd, hne]) (by have := lw_lock1 c.n (s.st k); simp [upd]; omega)
+    simp only [rank, hp]
+    split
+    · rename_i hk
+      simp only [rankC]
+      have : (c.n - k) * G c.n = (c.n - (k+1)) * G c.n + G c.n := by
+        rw [← Nat.succ_mul]; congr 1; omega
+      omega
+    · simp only [loopHead]
+      split
+      · rename_i hb
+        simp only [rankC, hblk]
+        have hb' : 0 < c.blocks := by simp_all
+        obtain ⟨q, hq⟩ : ∃ q, c.blocks = q + 1 := ⟨c.blocks - 1, by omega⟩
+        rw [hq, PB_mul_succ]
+        simp only [Nat.add_sub_cancel, Nat.sub_zero]
+        omega
+      · simp only [rankC]
+        omega
+  | lockA =>
+    simp only [stepC, hp] at hs; split at hs
+    · injection hs with hs; subst hs
+      apply rank_lt_of_coord c _ _ (G c.n)
+      · intro k hk; dsimp only; split
+        · exact lw_run _ _ _
+        · omega
+      · simp only [hp, rankC, PB]; omega
+    · cases hs
+  | bcastA =>
+    simp only [stepC, hp] at hs; injection hs with hs; subst hs
+    apply rank_lt_of_coord c _ _ 2
+    · intro k hk; exact lw_wakeAll _ _ _ _
+    · simp only [hp, rankC]; omega
+  | bcastT =>
+    simp only [stepC, hp] at hs; injection hs with hs; subst hs
+    apply rank_lt_of_coord c _ _ 2
+    · intro k hk; exact lw_wakeAll _ _ _ _
+    · simp only [hp, rankC]; omega
+  | lockT =>
+    simp only [stepC, hp] at hs; split at hs
+    · injection hs with hs; subst hs
+      apply rank_lt_of_coord c _ _ 4
+      · intro k hk; dsimp only; simp only [hk, if_true]; exact lw_term _ _ _
+      · simp only [hp, rankC, CT]; omega
+    · cases hs
+  | unlockB =>
+    simp only [stepC, hp] at hs; injection hs with hs; subst hs
+    apply rank_lt_of_coord c _ _ 0
+    · intro k hk; simp
+    · simp only [hp, loopHead]
+      split
+      · rename_i hb
+        have hb' : s.blk + 1 < c.blocks := by simp_all
+        simp only [rankC]
+        obtain ⟨q, hq⟩ : ∃ q, c.blocks - s.blk - 1 = q + 1 := ⟨c.blocks - s.blk - 2, by omega⟩
+        have hq' : c.blocks - (s.blk + 1) - 1 = q := by omega
+        rw [hq, hq', PB_mul_succ]
+        omega
+      · simp only [rankC]; omega
+  | final => simp [stepC, hp] at hs
+  | waiting => simp [stepC, hp] at hs
+  | unlockA =>
+    simp only [stepC, hp] at hs; injection hs with hs; subst hs
+    apply rank_lt_of_coord c _ _ 0 (fun k hk => by simp); simp only [hp, rankC]; omega
+  | condWait =>
+    simp only [stepC, hp] at hs; injection hs with hs; subst hs
+    apply rank_lt_of_coord c _ _ 0 (fun k hk => by simp); simp only [hp, rankC]; omega
+  | unlockT =>
+    simp only [stepC, hp] at hs; injection hs with hs; subst hs
+    apply rank_lt_of_coord c _ _ 0 (fun k hk => by simp); simp only [hp, rankC]; omega
+  | lockB =>
+    simp only [stepC, hp] at hs; split at hs
+    · injection hs with hs; subst hs
+      apply rank_lt_of_coord c _ _ 0 (fun k hk => by simp); simp only [hp]
+      split <;> simp only [rankC] <;> omega
+    · cases hs
+  | woken =>
+    simp only [stepC, hp] at hs; split at hs
+    · injection hs with hs; subst hs
+      apply rank_lt_of_coord c _ _ 0 (fun k hk => by simp); simp only [hp]
+      split <;> simp only [rankC] <;> omega
+    · cases hs
+  | join k =>
+    have hk := h.joinLt k hp
+    simp only [stepC, hp] at hs; split at hs
+    · injection hs with hs; subst hs
+      apply rank_lt_of_coord c _ _ 0 (fun k hk => by simp); simp only [hp]
+      split <;> simp only [rankC] <;> omega
+    · cases hs
+
+
+theorem rank_step (c : Cfg) (s s' : State) (t : Nat) (h : Inv c s) (hs : step? c s t = some s') :
+    rank c s' < rank c s := by
+  cases t with
+  | zero => exact rank_stepC c s s' h hs
+  | succ w =>
+    simp only [step?] at hs
+    split at hs
+    · exact rank_stepW c s s' w (by assumption) hs
+    · cases hs
+
+theorem reach_runSched (c : Cfg) : ∀ (sched : List (Nat × Bool)) (s s' : State),
+    Reach c s → runSched c s sched = some s' → Reach c s' := by
+  intro sched
+  induction sched with
+  | nil => intro s s' h hs; simp [runSched] at hs; subst hs; exact h
+  | cons a rest ih =>
+    intro s s' h hs
+    obtain ⟨t, sp⟩ := a
+    simp only [runSched] at hs
+    cases sp with
+    | true =>
+      simp only [if_true] at hs
+      cases h1 : spur? c s t with
+      | none => simp [h1] at hs
+      | some s1 => simp only [h1] at hs; exact ih s1 s' (Reach.spur t h h1) hs
+    | false =>
+      simp only [Bool.false_eq_true, if_false] at hs
+      cases h1 : step? c s t with
+      | none => simp [h1] at hs
+      | some s1 => simp only [h1] at hs; exact ih s1 s' (Reach.step t h h1) hs
+
+theorem anyEnabled_iff (c : Cfg) (s : State) : anyEnabled c s = true ↔ Enabled c s := by
+  simp only [anyEnabled, List.any_eq_true, List.mem_range, Enabled]
+  constructor
+  · rintro ⟨t, ht, h⟩; exact ⟨t, by omega, h⟩
+  · rintro ⟨t, ht, h⟩; exact ⟨t, by omega, h⟩
+
 end PsV.Sync
